@@ -347,7 +347,7 @@ var ruleTraversal = &Rule{
 			}
 		}
 		out.Counts["outside_call_sites"] = nout
-		out.Floors["outside_call_sites"] = 5
+		out.Floors["outside_call_sites"] = 2
 		return out
 	},
 }
